@@ -143,6 +143,8 @@ def do_eval(i, props):
         r = mutant.run(os.path.join(SEED, i, 'patch.diff'), tests=False, props=props)
     fired = {p: c['violations'] for p, c in r['checks'].items() if c['rc'] == 1}
     broken = {p: c for p, c in r['checks'].items() if c['rc'] not in (0, 1)}
+    if r.get('error'):
+        broken['apply'] = r['error']
     m['detection'] = {'checks_run': props, 'fired': fired, 'errors': broken, 'detected_by_target_property': m['property'] in fired}
     save(i, m)
     print(json.dumps(m['detection'], indent=1)[:3000])
